@@ -202,6 +202,14 @@ int flush_pubsub_msgs(void *data, const char *key, void *value) {
                 m_mem_unref(mm);
                 break;
             }
+            if (mm->sub && mm->sub->flags & M_SRC_ONESHOT) {
+                /* A oneshot subscription runs just once, here too: messages it matched before that are discarded */
+                if (m_map_get(mod->subscriptions, mm->sub->ps_src.topic) != mm->sub) {
+                    m_mem_unref(mm);
+                    continue;
+                }
+                m_map_remove(mod->subscriptions, mm->sub->ps_src.topic);
+            }
             M_DEBUG("Flushing enqueued pubsub message for module '%s'.\n", mod->name);
             evt_priv_t *msg = new_evt(mm->sub);
             if (msg && flushed) {
